@@ -31,6 +31,17 @@ CANCEL_CONDS = [ConditionCode.CANCEL_REQUEST_RECEIVED, ConditionCode.POSITIVE_AC
                 ConditionCode.FILESTORE_REJECTION, ConditionCode.CHECK_LIMIT_REACHED]
 
 
+def cancel_table(ctx):
+    """the fault-handler table may hold any code for Cancel Request Received: a cancel REQUEST is not a
+    declared fault, it takes effect whatever that entry says"""
+    from cfdppy.mib import FaultHandlerCode
+    e = ctx.pick("cancel_entry", ["default", "ignore", "abandon"])
+    if e == "default":
+        return None
+    return {ConditionCode.CANCEL_REQUEST_RECEIVED:
+            FaultHandlerCode.IGNORE_ERROR if e == "ignore" else FaultHandlerCode.ABANDON_TRANSACTION}
+
+
 def tlv_entity(tlv):
     if tlv is None:
         return None
@@ -43,7 +54,8 @@ def h_dest(ctx, mode, prefix, how):
     closure = bool(ctx.choice("closure", 2))
     disposition = bool(ctx.choice("disposition", 2))
     sc = DstScenario(ctx, w, mode=mode, cktype=ChecksumType.CRC_32, closure=closure,
-                     rig_kwargs={"disposition": disposition, "immediate_nak": bool(ctx.choice("imm", 2))})
+                     rig_kwargs={"disposition": disposition, "immediate_nak": bool(ctx.choice("imm", 2)),
+                                 "fault_table": cancel_table(ctx)})
     fs = sc.rig.fs
     S = sc.S
     for ev in DEST_PREFIXES[prefix]:
@@ -145,7 +157,8 @@ def h_src(ctx, mode, prefix, how, nofile=False):
     from vf.harness.c10 import SRC_PREFIXES
     w = World(ctx)
     mode = ACK if mode == "ack" else UNACK
-    sc = hsrc.SrcScenario(ctx, w, mode=mode, closure=bool(ctx.choice("closure", 2)), M=3)
+    sc = hsrc.SrcScenario(ctx, w, mode=mode, closure=bool(ctx.choice("closure", 2)), M=3,
+                          rig_kwargs={"fault_table": cancel_table(ctx)})
     if nofile:
         from spacepackets.cfdp import MessageToUserTlv
         o = sc.put(src=None, dst=None, msgs=[MessageToUserTlv(b"hello")])  # metadata-only request
